@@ -337,6 +337,13 @@ int ares_init_options(ares_channel_t           **channelptr,
       DEBUGF(fprintf(stderr, "Error: init_by_sysconfig failed: %s\n",
                      ares_strerror(status)));
     }
+    /* A system configuration that cannot be read or is incomplete is made up
+     * for by the defaults below, but running out of memory while reading it
+     * must not silently replace the configured servers, search list and lookup
+     * order with defaults. */
+    if (status == ARES_ENOMEM) {
+      goto done;
+    }
   }
 
   /*
